@@ -61,6 +61,8 @@ class Case:
         self.fresh = True
         self.dirs = dirs
         self.styles = styles
+        self.mem_origin = None   # the origin model object when it was re-targeted after parsing (flat)
+        self.laid_mem = None     # the same, with the URLs as spelled
 
     def write_files(self, table, files):
         if self.dirs is None:
@@ -92,10 +94,42 @@ class Case:
 
     def parse(self):
         self.steps.append("P:" + ORIGIN)
+        self.mem_origin = None
+        self.laid_mem = None
+
+    def new_importer_keep_old(self, strict):
+        """a new Importer while the previous one and its library models stay alive; the model object is kept"""
+        self.steps.append("N2:%d" % (1 if strict else 0))
+        self.fresh = True
+
+    def retarget(self, table, kind, name, url, ref):
+        """setUrl / setImportReference on the import of the origin model OBJECT (the file on disk is not touched)"""
+        cur = self.mem_origin or self.files[ORIGIN]
+        self.mem_origin = ig.retarget(cur, kind, name, url, ref)
+        spelled = url
+        if self.dirs is not None:
+            spelled = ig.relative_url("", self.dirs.get(url, ""), url, 0)
+        self.steps.append("T:%s:%s:%s:%s" % (kind, name, spelled, ref))
+        # the spellings reachable now (the origin as it is in memory: its other URLs keep the spelling they were written with)
+        if self.dirs is not None:
+            laid = dict(self.laid)
+            self.laid_mem = ig.retarget(self.laid_mem or self.laid[ORIGIN], kind, name, spelled, ref)
+            laid[ORIGIN] = self.laid_mem
+            keys = ig.spelled_keys(laid)
+            if keys is None:
+                raise ValueError("layout not fitted: " + self.label)
+            self.steps.append("KC")
+            for k in sorted(keys):
+                real = keys[k]
+                if real is not None and real != k and real in laid and real != ORIGIN:
+                    self.steps.append("K:%s:%s" % (k, table.add(laid[real], self.group)))
 
     def resolve(self, label, tail="U F"):
         self.steps.append("R")
-        self.phases.append((dict(self.files), self.fresh, label))
+        cur = dict(self.files)
+        if self.mem_origin is not None:
+            cur[ORIGIN] = self.mem_origin
+        self.phases.append((cur, self.fresh, label))
         self.steps += tail.split()
         self.fresh = False
 
@@ -158,6 +192,54 @@ def fault_case(table, good, bad, strict, label, layout=None):
     c.new_importer(strict)
     c.parse()
     c.resolve("repaired-fresh-importer")
+    return c
+
+
+def alive_case(table, good, bad, strict, label, layout=None):
+    """fault that still lets the file load -> resolve fails -> file repaired on disk -> a NEW importer while the first
+    one (and the library models the model's import sources are linked to) is still alive, SAME model object"""
+    c = Case(label, "alive", *(fit_layout(layout, [good, bad]) or (None, None)))
+    c.write_files(table, bad)
+    c.new_importer(strict)
+    c.parse()
+    c.resolve("faulted")
+    c.write_files(table, good)
+    c.new_importer_keep_old(strict)
+    c.resolve("repaired-new-importer-old-alive-same-model-object")
+    c.clear()
+    c.resolve("then-removeAllModels", tail="U")
+    return c
+
+
+WRONG = "fw.cellml"
+
+
+def retarget_case(table, good, imp, strict, label, layout=None):
+    """the origin imports `imp` from a file that loads but does not hold the entity -> resolve fails -> the import is
+    re-targeted on the model object (setUrl) -> resolve again with the same importer and the same model object; then
+    pointed at the wrong file again, resolve, new importer (old alive), re-target, resolve"""
+    kind, name, url, ref = imp
+    wrong = ig.M("m_fw", [], [])
+    files0 = dict(good)
+    files0[WRONG] = wrong
+    files0[ORIGIN] = ig.retarget(good[ORIGIN], kind, name, WRONG, ref)
+    lay = None
+    if layout is not None:
+        dirs = dict(layout[0])
+        dirs.setdefault(WRONG, "")
+        lay = fit_layout((dirs, layout[1]), [files0, dict(good, **{WRONG: wrong})])
+    c = Case(label, "retarget", *(lay or (None, None)))
+    c.write_files(table, files0)
+    c.new_importer(strict)
+    c.parse()
+    c.resolve("wrong-file")
+    c.retarget(table, kind, name, url, ref)
+    c.resolve("retargeted-same-importer-same-object")
+    c.retarget(table, kind, name, WRONG, ref)
+    c.resolve("wrong-file-again", tail="U")
+    c.new_importer_keep_old(strict)
+    c.retarget(table, kind, name, url, ref)
+    c.resolve("retargeted-new-importer-old-alive")
     return c
 
 
@@ -395,6 +477,37 @@ def build_cases(ctx, table):
             cases.append(fault_case(table, g, bad, n % 2 == 0, "enum%d/%s" % (n, label),
                                     layout=lay(g) if nf % 2 == 0 else None))
             hist["backedge"] += 1
+    # import placeholders with imported children of their own: every fault, the repair by re-targeting, and a new
+    # importer while the old one is alive; the same two sequences on the enumerated resolvable graphs
+    def loads(label):
+        return label.startswith(("rm-", "notcellml", "err-"))
+    hist.update({"placeholder": 0, "retarget": 0, "new_importer_old_alive": 0})
+    for label, g in ig.placeholder_graphs():
+        for k, lay_ in enumerate((None, lay(g))):
+            tag = label + ("/dirs" if lay_ else "")
+            cases.append(base_case(table, g, k == 0, tag, layout=lay_))
+            hist["placeholder"] += 1
+            for flabel, bad in ig.single_faults(g):
+                cases.append(fault_case(table, g, bad, True, "%s/%s" % (tag, flabel), layout=lay_))
+                hist["fault"] += 1
+                if loads(flabel):
+                    cases.append(alive_case(table, g, bad, k == 1, "%s/%s/alive" % (tag, flabel), layout=lay_))
+                    hist["new_importer_old_alive"] += 1
+            for imp in ig.origin_imports(g[ORIGIN]):
+                cases.append(retarget_case(table, g, imp, k == 0, "%s/retarget-%s" % (tag, imp[1]), layout=lay_))
+                hist["retarget"] += 1
+    for n, g in resolvable:
+        imps = ig.origin_imports(g[ORIGIN])
+        if imps:
+            imp = imps[n % len(imps)]
+            cases.append(retarget_case(table, g, imp, n % 2 == 0, "enum%d/retarget-%s" % (n, imp[1]),
+                                       layout=lay(g) if n % 2 else None))
+            hist["retarget"] += 1
+        for j, (flabel, bad) in enumerate(ig.single_faults(g)):
+            if loads(flabel) and (n + j) % 2 == 0:
+                cases.append(alive_case(table, g, bad, n % 2 == 0, "enum%d/%s/alive" % (n, flabel),
+                                        layout=lay(g) if j % 2 else None))
+                hist["new_importer_old_alive"] += 1
     # several children in every order, the cycle-closing edge in every position (flat, and spread over directories)
     for label, g in ig.child_order_graphs():
         cases.append(base_case(table, g, True, label))
@@ -497,8 +610,8 @@ def run(ctx):
 
 
 # the model as the code is now; set to "pop", "nullref" or "pop,nullref" when fixes/C07-*.diff are committed to /repo
-FIXES_APPLIED = os.environ.get("C07_FIXES", "pop,nullref")
-REPAIR_VARIANTS = ["pop", "nullref", "pop,nullref"]
+FIXES_APPLIED = os.environ.get("C07_FIXES", "pop,nullref,kids")
+REPAIR_VARIANTS = ["", "pop", "nullref", "pop,nullref", "pop,nullref,kids"]
 
 
 def judge(ctx, case, cl, ml):
